@@ -101,6 +101,16 @@ def gen_history(rng):
                 continue
             for d in s["data"]:
                 d["uid"] = d["uid"] + rng.choice([1, 3, 7])
+            if rng.random() < 0.5:
+                # the twin's numbers are the same numbers in the other numeric type (50 <-> 50.0)
+                flip = lambda v: float(v) if isinstance(v, int) and not isinstance(v, bool) else (int(v) if isinstance(v, float) and v == int(v) else v)
+                for d in s["data"]:
+                    d["width"] = flip(d["width"])
+                for key in ("labelPadding", "margin"):
+                    if isinstance(s["options"].get(key), dict):
+                        s["options"][key] = {k2: flip(v2) for k2, v2 in s["options"][key].items()}
+                if "layerGap" in s["options"]:
+                    s["options"]["layerGap"] = flip(s["options"]["layerGap"])
             for cname in rng.sample(["dotColor", "linkColor", "labelBgColor", "labelTextColor"], 2):
                 fnname = rng.choice(["by_uid6", "by_uid3", "by_parity"])
                 s["options"][cname] = {"fn": fnname}
